@@ -37,7 +37,7 @@ Theorem failed_insert_message : forall p v sec rr it s' e, bytes_ok p -> parse p
 Proof.
   intros p v sec rr it s' e Hb Hp H.
   destruct (uncompress_roundtrip p v Hb Hp) as (q & v' & qls & qt & lxa & lxn & lxr & lxa' & lxn' & lxr' &
-                                                 Hu & Hbq & Hpq & Huq & R & R' & Ea & En & Er).
+                                                 Hu & Hbq & Hpq & Huq & R & R' & Ea & En & Er & _).
   destruct (parse_shape p v Hb Hp) as (sq & san & sns & sar & an & ns & ar & F).
   pose proof (pf_packet _ _ _ _ _ _ _ _ _ F) as Hpk. pose proof (pf_mc _ _ _ _ _ _ _ _ _ F) as Hmc.
   exists q, v', qls, qt, lxa, lxn, lxr, lxa', lxn', lxr'.
